@@ -335,7 +335,11 @@ def _run(case: Dict[str, Any], sim: Sim, world: World) -> None:
         sim.event("graph", {"kind": kind, "n": len(sp["nodes"]), "m": len(sp["edges"])})
 
     def pick(i: int) -> Dict[str, Any]:
-        return pool[i % len(pool)]
+        ent = pool[i % len(pool)]
+        if nx.number_of_selfloops(ent["g"]):
+            sim.exotic = "self_loop"      # unusual input: a clean refusal (ValueError/TypeError) is accepted, a wrong answer is not
+            sim.probe("graph_with_self_loop_queried")
+        return ent
 
     def eng(i: int) -> Dict[str, Any]:
         if not engines:
@@ -387,6 +391,7 @@ def _run(case: Dict[str, Any], sim: Sim, world: World) -> None:
 
     for op in case["ops"]:
         sim.step()
+        sim.exotic = None
         k = op["op"]
         world.reseed(op.get("s", 0))
         rng = rng_for(op.get("s", 0), "c07op")
